@@ -84,6 +84,11 @@ def ob_sequence(ms: List[int], limit: int) -> str:
     pre: len(ms) <= NM and all(0 <= m < 10 for m in ms) and 1 <= limit <= 2
     post: _.startswith("ok")
     """
+    return sequence_body(ms, limit)
+
+
+def sequence_body(ms, limit):
+    """body of ob_sequence (contract-free so that harness/C01_protocol.py can reuse it)"""
     logging.disable(logging.CRITICAL)
     loop = Loop()
     C.install(loop)
